@@ -1096,7 +1096,13 @@ func (x *Exec) makeIface(st *State, v Val, from, to types.Type) (Val, error) {
 		payload = v.One()
 	case KPtrCell:
 		if v.P != nil {
-			return Val{}, engineErr("%s: engine-level pointer converted to an interface", x.topName)
+			// the address of a field or element handed to a callee as an interface{} (redis.Scan(&s.f, …)): an opaque
+			// identity; what the callee writes through it is covered by the callee's frame (its contract's modifies
+			// clause, or the whole heap for a callee without contract) — the pointed-to object lives in the heap
+			payload = u.Fresh("box", SInt)
+			u.Assume(Eq(App("root", SInt, payload), IntLit(0)))
+			u.Trust("address of a field boxed into an interface: the payload is opaque; writes through it are those the callee's frame allows")
+			break
 		}
 		payload = v.One()
 	case KInt:
